@@ -123,6 +123,12 @@ func lowUse(s *store.Store) {
 // closeWhileParked: the background goroutine reaches `point` and is parked there; Close is called; it must not return
 // before the parked cycle is released, and afterwards everything is released.
 func closeWhileParked(point string, prepare func(s *store.Store), gcInt time.Duration, pmax uint32, extra ...store.Option) string {
+	return closeWhileParkedFor(0, point, prepare, gcInt, pmax, extra...)
+}
+
+// closeWhileParkedFor: as closeWhileParked, but Close is issued only after the cycle has been parked for `hold` - longer than the
+// collector's interval, so that a collector which does not wait for its running cycle before it arms the next one shows itself.
+func closeWhileParkedFor(hold time.Duration, point string, prepare func(s *store.Store), gcInt time.Duration, pmax uint32, extra ...store.Option) string {
 	dir, _ := os.MkdirTemp("", "close")
 	defer os.RemoveAll(dir)
 	parked := make(chan struct{})
@@ -152,6 +158,7 @@ func closeWhileParked(point string, prepare func(s *store.Store), gcInt time.Dur
 		s.Close()
 		return "SKIP the background goroutine never reached " + point
 	}
+	time.Sleep(hold)
 	closed := make(chan error, 1)
 	go func() { closed <- s.Close() }()
 	select {
@@ -295,6 +302,19 @@ var scenarios = []scenario{
 	}},
 	{"close-during-primary-gc-after-freelist", func(rng *rand.Rand) string {
 		return closeWhileParked("gc.afterFreeList", lowUse, 60*time.Millisecond, 190)
+	}},
+	{"close-while-a-primary-gc-cycle-outlasts-the-gc-interval", func(rng *rand.Rand) string {
+		return closeWhileParkedFor(150*time.Millisecond, "gc.afterFreeList", lowUse, 30*time.Millisecond, 190)
+	}},
+	{"close-while-an-index-gc-cycle-outlasts-the-gc-interval", func(rng *rand.Rand) string {
+		return closeWhileParkedFor(150*time.Millisecond, "index.gc.beforeReap", func(s *store.Store) {
+			for r := 0; r < 4; r++ {
+				for b := byte(1); b <= 6; b++ {
+					s.Put(key(b), bytes.Repeat([]byte{'a' + b + byte(r)}, 18))
+				}
+				s.Flush()
+			}
+		}, 30*time.Millisecond, 190)
 	}},
 	{"close-during-index-gc", func(rng *rand.Rand) string {
 		return closeWhileParked("index.gc.beforeReap", func(s *store.Store) {
